@@ -80,6 +80,8 @@ package fs
 // record names never start with a dot, temporary names do
 //@   requires fdb != nil && len(pbase(fp)) >= 1 && pbase(fp)[0] != 46
 //@   modifies tmpMods(fdb), fsExists[fp], fsContent[fp]
+//@   callsite io/ioutil.WriteFile assert[C12] @tmponly arg0 != fp
+//@   callsite os.WriteFile assert[C12] @tmponly arg0 != fp
 //@   callsite (*os.File).Write assert[C12] @tmponly fileOf(arg0) != fp
 //@   callsite os.Remove assert[C12] @tmponly arg0 != fp
 //@   callsite os.Rename assert[C12] @complete arg1 == fp && fsContent(arg0) == str(val)
